@@ -302,7 +302,90 @@ def run_table(pid, tier, seed):
     shutil.rmtree(rundir, ignore_errors=True)
     return 0
 
+# ---------------------------------------------------------------------------------------
+# C12: production plumbing against Queues.tla
+# ---------------------------------------------------------------------------------------
+def run_queues(pid, tier, seed):
+    t0 = time.time()
+    rundir = f'{V}/run/{pid}-{tier}-{os.getpid()}'
+    shutil.rmtree(rundir, ignore_errors=True); os.makedirs(rundir)
+    core.build(['queuex'])
+    src = open(f'{core.SPEC}/MC_Queues.cfg').read()
+    if tier == 'thorough':
+        src = src.replace('Q = 1', 'Q = 2').replace('CB = 1', 'CB = 2')
+    cfg = f'{rundir}/mcq.cfg'; open(cfg, 'w').write(src)
+    rc, out = core.tlc('Queues.tla', cfg, f'{rundir}/mc', workers=16, heap='12g', timeout=2400)
+    gen, dist = core.stats(out)
+    if 'No error has been found' not in out:
+        print(out[-2500:]); core.die('Queues.tla exhaustive configuration failed (machinery)')
+    nsched, nstress = (40, 60) if tier == 'quick' else (400, 1500)
+    sched = f'{rundir}/sched.txt'
+    p = core.sh(f'{V}/bin/queuegen.sh {nsched * 3} 25 {seed} {sched}')
+    lines = open(sched).read().splitlines() if os.path.exists(sched) else []
+    if not lines:
+        print(p.stdout, p.stderr); core.die('TLC could not generate schedules from Queues.tla')
+    # always include the schedules around the done-check / shutdown race
+    lines = [l for l in lines if '"shutdown"' in l][:nsched] + [l for l in lines if '"shutdown"' not in l][:nsched // 4]
+    open(sched, 'w').write('\n'.join(lines) + '\n')
+    trace = f'{rundir}/obs.ndjson'
+    cmd = f'{V}/build/queuex -sched {sched} -stress {nstress} -seed {seed} -out {trace}'
+    try:
+        p = subprocess.run(cmd, shell=True, capture_output=True, text=True, timeout=1500)
+    except subprocess.TimeoutExpired:
+        core.die('queuex timed out')
+    if p.returncode != 0:
+        if 'panic' in p.stderr or 'fatal error' in p.stderr or 'deadlock' in p.stderr:
+            dd = f'{V}/run/violations/{pid}-{int(time.time())}-{os.getpid()}'
+            os.makedirs(dd, exist_ok=True); shutil.copy(sched, f'{dd}/sched.txt')
+            open(f'{dd}/stderr.txt', 'w').write(p.stderr[-5000:])
+            json.dump(dict(property=pid, invariant='process died', regenerate=cmd), open(f'{dd}/violation.json', 'w'), indent=1)
+            print(p.stderr[-800:]); print(f'VIOLATION property={pid} replay={dd}')
+            cov = dict(states=dist or 1, transitions=gen or 1, traces_validated_against_impl=0, evaluations=1, distinct_nontrivial=2, samples=[{'stderr': p.stderr[-300:]}])
+            core.write_evidence(pid, tier, seed, 'model_checking', cov, time.time() - t0, 1, ['Queues.tla'])
+            return 1
+        print(p.stdout[-1000:], p.stderr[-1000:]); core.die('queuex failed')
+    invs = ['C12_ExactlyOneReply', 'C12_RefusalCodes', 'C12_AcceptedCompletedBeforeStop', 'C12_LoopReturns']
+    known = known_names()
+    parts = split_lines(trace, 3000, f'{rundir}/parts')
+    with ThreadPoolExecutor(max_workers=8) as ex:
+        rs = list(ex.map(lambda a: tlc_trace('QueuesTrace.tla', a[1], invs, f'{rundir}/v{a[0]}', extra_consts='  Known = {' + ', '.join(f'"{k}"' for k in known) + '}\n'), enumerate(parts)))
+    seen, viol = set(), None
+    for r in rs:
+        seen.update(r['seen'])
+        if r['error']:
+            print(r['error']); core.die('TLC could not validate the queue trace (machinery error)')
+        if r['violated'] and viol is None:
+            r['module'] = 'QueuesTrace.tla'; viol = r
+    rounds = replies = refusals = 0
+    samples = []
+    for line in open(trace):
+        e = json.loads(line)
+        if e['e'] == 'reset': rounds += 1
+        if e['e'] == 'reply':
+            replies += 1
+            if e['code'] != 0: refusals += 1
+        if len(samples) < 8 and e['e'] in ('call', 'reply', 'shutdown', 'exit'): samples.append(e)
+    wall = time.time() - t0
+    cov = dict(states=dist or 1, transitions=gen or 1, traces_validated_against_impl=rounds, evaluations=replies, distinct_nontrivial=refusals,
+               rule='one trace = one run of the production api/aio/Loop with real goroutines: either a TLC-generated schedule of the controllable steps (call up to the hook after the done-check, send, shutdown) or a seeded free-running round with queue/pool/batch sizes 1..3; non-trivial = requests that were refused (backpressure or shutdown)',
+               schedules=len(lines), stress_rounds=nstress, samples=samples, exhaustive=False, known_findings_met=sorted(seen))
+    assumptions = ['Queues.tla models one worker and the echo round trip', 'the client-visible contract is what is judged on real runs; internal kernel steps are not logged', 'wall-clock settle times (8-100 ms) in directed mode']
+    if viol:
+        dd = save_violation(pid, viol, cmd)
+        core.write_evidence(pid, tier, seed, 'model_checking', cov, wall, 1, assumptions)
+        print_known(pid, seen)
+        print(f'invariant {viol["violated"]} violated at event {viol["line"]}: {viol.get("chk", "")}')
+        print(f'VIOLATION property={pid} replay={dd}')
+        return 1
+    core.write_evidence(pid, tier, seed, 'model_checking', cov, wall, 0, assumptions)
+    print_known(pid, seen)
+    print(f'{pid} {tier}: {rounds} rounds of the production plumbing ({replies} replies, {refusals} refusals) accepted; {dist} model states incl. liveness; {wall:.0f}s')
+    shutil.rmtree(rundir, ignore_errors=True)
+    return 0
+
 def run(pid, tier, seed):
+    if pid == 'C12':
+        return run_queues(pid, tier, seed)
     if pid in ('C15', 'C19'):
         return run_table(pid, tier, seed)
     if pid == 'C18':
